@@ -202,6 +202,9 @@ def _expander(kind: str, bound: int):
     """Entry of `loop` expands into (assign k+1, marker, the same expansion again) while k < bound; bound=None never
     stops by itself and is cut by the engine's expansion-depth guard - at the same point on every engine."""
     def more(ctx):
+        if ctx.get("k", 0) > 500:
+            # every engine cuts a self-enqueueing expansion after a few dozen levels; far beyond that it is running away
+            raise RuntimeError(f"nested action expansion reached level {ctx.get('k')} and was never cut")
         return bound is None or ctx.get("k", 0) < bound
 
     def bump(args):
